@@ -53,6 +53,7 @@ CFG = {
     "theorems": [
         "Swat4.C17.facts_config_wiring",
         "Swat4.C17.facts_harness_settings_wiring",
+        "Swat4.C17.facts_add_status_map",
         "Swat4.C17.accepted_is_routable",
         "Swat4.C17.routable_is_accepted",
         "Swat4.C17.accepted_iff_routable",
@@ -194,7 +195,7 @@ CFG = {
                 "source on every run; view_body_inert — hence every 200 has inert hostname_html and code-free hostname_plain; knownOf_spec / knownOf_go "
                 "— the columns of the reference table are exactly the bit tests 8, 128-or-16, 256 of the status word, in the "
                 "form server.go computes them and bit by bit, in the order addserver.go / getserver.go test them. The model is tied "
-                "to the code by differential runs through the real router and by facts_ok (binding tags, status bits and the regular "
+                "to the code by differential runs through the real router, by facts_add_status_map (go/ast: every response api.AddServer writes with its guard and errors.Is error; equal row by row to RestBridge.addStatus on the five AddEnds, 400 for the two address errors; both ifs return, the switch has no default) and by facts_ok (binding tags, status bits and the regular "
                 "expressions' source text are read from the source on every run).",
         "level_note": "Trusted: Lean kernel; axioms propext, Quot.sound, Classical.choice; the hand-written scanners as the meaning of Go's "
                       "regexp on the four expressions and the other re-modelled library functions (finite differential evidence, incl. "
